@@ -133,8 +133,29 @@ def scheme(vk, cfg):
         from felupe.quadrature._gauss_lobatto import gauss_lobatto
 
         vk.real(gauss_lobatto)
+    inv_obligations = None
+    if hasattr(type(q), "inv"):
+        # inv() (used by tools.extrapolate): reciprocal points, same weights, and the scheme itself is outside its
+        # frame -- every clause below is stated on q AFTER the call, so a scheme that was inverted once still is the rule
+        vk.real(type(q).inv)
+        p0, w0 = np.array(q.points, dtype=float), np.array(q.weights, dtype=float)
+        with symnp.native():
+            qi = q.inv()
+        inv_obligations = (p0, w0, qi)
     pts, wts = _exact(q.points), _exact(q.weights)
     npts, dim = pts.shape
+    if inv_obligations is not None:
+        p0, w0, qi = inv_obligations
+        rep = {"confirmed": True, "kind": "ground", "point": {"scheme": str(cfg), "call": "q.inv()"}, "expected": p0.tolist(), "actual": np.asarray(q.points, dtype=float).tolist()}
+        same = bool(np.array_equal(p0, np.asarray(q.points, dtype=float)) and np.array_equal(w0, np.asarray(q.weights, dtype=float)))
+        vk.ensures_true("inv/frame: points and weights of the scheme unchanged by inv()", same, "bitwise comparison with the snapshot taken before the call", replay=None if same else rep)
+        vk.ensures_true("inv/frame: inverse points do not alias the scheme's points", not np.shares_memory(qi.points, q.points), "np.shares_memory")
+        ip = _exact(qi.points)
+        ok = ip.shape == pts.shape and all((a == 0 and b == 0) or (a != 0 and a * b == 1) or abs(a * b - 1) <= Fraction(1, 10**15) for a, b in zip(_exact(p0).ravel().tolist(), ip.ravel().tolist()))
+        vk.ensures_true("inv/points == 1/points (0 where 0)", bool(ok), "entry-wise, relative 1e-15 on the exact-rational reading")
+        vk.ensures_true("inv/weights == weights", bool(np.array_equal(np.asarray(qi.weights, dtype=float), w0)), "bitwise")
+        if np.any(p0 != 0) and not np.all(np.abs(p0[p0 != 0]) == 1):
+            vk.canary_bool("inv/points == points", not np.array_equal(np.asarray(qi.points, dtype=float), p0))
     vk.ensures_true("shape", bool(len(wts) == npts and q.dim == dim and q.npoints == npts), f"points {pts.shape} weights {wts.shape} dim {q.dim}")
 
     def monomial_obligations(P, W, monos, exact, measure, label="exact"):
